@@ -826,4 +826,32 @@ theorem reach_preInv {g : List NodeInfo} {s : State} (h : Reach g s) : PreInv s 
   | init => exact preInv_init g
   | step hr hen ih => exact preInv_step (reach_objsInv hr) hen ih
 
+
+/-! ### replay produces reachable states -/
+
+theorem replayFrom_reach {g : List NodeInfo} {evs : List Ev} {i : Nat} {s0 s : State}
+    (h0 : Reach g s0) (h : replayFrom i s0 evs = .ok s) : Reach g s := by
+  induction evs generalizing i s0 with
+  | nil => simp [replayFrom] at h; subst h; exact h0
+  | cons e r ih =>
+    simp only [replayFrom] at h
+    split at h
+    · rename_i hen; exact ih (Reach.step h0 hen) h
+    · cases h
+
+theorem replay_reach {g : List NodeInfo} {evs : List Ev} {s : State}
+    (h : replay (init g) evs = .ok s) : Reach g s :=
+  replayFrom_reach Reach.init h
+
+theorem launchOk_phase {s : State} {o : Obj} (h : launchOk s o = true) :
+    s.phase = .normal ∧ s.cachedOf o.n = .running ∧ fmDone s o.n o.f = false ∧
+    (o, s.inc) ∉ s.launches ∧ s.hasObj o = true := by
+  unfold launchOk at h
+  simp only [Bool.and_eq_true, beq_iff_eq, Bool.not_eq_true', List.contains_eq_mem,
+    decide_eq_false_iff_not] at h
+  exact ⟨h.1.1.1.1.1, h.1.1.1.2, h.1.2, h.1.1.2, h.1.1.1.1.2⟩
+
+theorem metaState_has_failed {x : SSet} (h : metaState x = some .failed) :
+    x.has .errors = true ∨ x.has .assert = true := metaState_failed.mp h
+
 end Martian.Sched
